@@ -213,6 +213,22 @@ func stampedLines(s int, key bool) []string {
 		fmt.Sprintf("+wrr.example.com,10.9.%d.2,60,,,20", s),
 		fmt.Sprintf("+ns.sub.example.com,10.0.%d.3,60,,", s),
 	}
+	// NS / MX sets whose targets need a weighted draw for their address (ta: three candidates) or
+	// not (tb, tc: one address): weighted target first / last / in the middle.  The response is
+	// subject to weighted selection whichever target it is, so it must never enter the cache.
+	l = append(l,
+		fmt.Sprintf("+ta.example.com,10.7.%d.1,60,,,1", s),
+		fmt.Sprintf("+ta.example.com,10.7.%d.2,60,,,1", s),
+		fmt.Sprintf("+ta.example.com,10.7.%d.3,60,,,1", s),
+		fmt.Sprintf("+tb.example.com,10.7.%d.9,60,,", s),
+		fmt.Sprintf("+tc.example.com,10.7.%d.8,60,,", s),
+		"&d1.example.com,,ta.example.com,300,,", "&d1.example.com,,tb.example.com,300,,",
+		"&d2.example.com,,tb.example.com,300,,", "&d2.example.com,,ta.example.com,300,,",
+		"&d3.example.com,,tb.example.com,300,,", "&d3.example.com,,ta.example.com,300,,", "&d3.example.com,,tc.example.com,300,,",
+		"@m1.example.com,,ta.example.com,10,300,,", "@m1.example.com,,tb.example.com,20,300,,",
+		"@m2.example.com,,tb.example.com,10,300,,", "@m2.example.com,,ta.example.com,20,300,,",
+		"@m3.example.com,,tb.example.com,10,300,,", "@m3.example.com,,ta.example.com,20,300,,", "@m3.example.com,,tc.example.com,30,300,,",
+	)
 	if key {
 		l = append(l, "+valid.example.com,10.0.0.4,60,,")
 	}
